@@ -263,6 +263,16 @@ def formula(e, atomize, resolve=None, depth=0):
         return BF.neg(formula(pos, atomize, resolve, depth))
     if t == "BooleanLiteral":
         return ("const", bool(e["value"]))
+    if t == "UnaryExpression" and e.get("operator") == "!" :
+        return BF.neg(formula(e["argument"], atomize, resolve, depth))
+    if t == "CallExpression" and jsast.ident_name(unparen(e["callee"].get("expression", e["callee"]) if isinstance(e.get("callee"), dict) else {})) == "Boolean" and len(e.get("arguments", [])) == 1:
+        # Boolean(x): the truthiness of x
+        return formula(e["arguments"][0]["expression"], atomize, resolve, depth)
+    if t == "OptionalChainingExpression":
+        # a?.b (a?.[k]) is truthy iff a is truthy and a.b is: the same two tests as `a && a.b`
+        base = unparen(e.get("base") or {})
+        if base.get("type") == "MemberExpression":
+            return BF.conj([formula(base["object"], atomize, resolve, depth), formula(dict(base), atomize, resolve, depth)])
     if t == "Identifier" and resolve is not None and depth < 3:
         r = resolve(e["value"])
         if r is not None:
